@@ -674,6 +674,8 @@ class EventOracle:
                     kk = self.streak[0] + 1
                     self.streak = (kk, now + self.dur(kk))
                     self.tags.add("doubling" if self.dur(kk) < self.max_blk else "capped")
+                    if kk >= 40:
+                        self.tags.add("long-failure-run")
                     new_block = True
                 else:
                     self.tags.add("fail-while-blocked")
@@ -856,6 +858,95 @@ def gen_actor_case(rng: Any, n: int, races: bool = False) -> dict:
         actions.append({"t": t, "ev": ev})
     actions.append({"t": t + 2 * max_age + 5 * Q + 8 * Q, "ev": None})
     return {"mode": "actor", "maxAge": max_age, "maxBlk": max_blk, "ts0": ts0, "t0": t0, "actions": actions}
+
+
+GOOD_BAT = {"k": "bat", "state": "IDLE", "relay": "CLOSED", "errs": [], "nan": False}
+GOOD_INV = {"k": "inv", "state": "IDLE", "relay": "UNSPECIFIED", "errs": [], "nan": False}
+
+
+def gen_long_failures_sync(rng: Any) -> dict:
+    """A healthy battery whose commands keep failing: 50-80 consecutive effective failures, each after the previous
+    block has expired (at the expiry, one quantum or 1 s later), no success in between; inside some blocks a healthy
+    message or another (ineffective) failure one quantum before the expiry.  Then a success and one more failure
+    (the back-off starts over), and a message after the last expiry (WORKING again)."""
+    max_age = rng.choice([2 * SEC, 5 * SEC, 10 * SEC])
+    max_blk = rng.choice([1 * SEC, 4 * SEC, 30 * SEC, 30 * SEC])
+    events: list[dict] = [dict(GOOD_BAT, now=Q, ts=Q), dict(GOOD_INV, now=2 * Q, ts=2 * Q)]
+    now = SEC
+    until = now
+    for k in range(rng.randint(50, 80)):
+        events.append({"k": "sp", "succ": False, "fail": True, "now": now})
+        until = now + min((2 ** k) * MIN_BLOCK, max_blk)
+        r = rng.random()
+        if r < 0.3 and until - now > 2 * Q:
+            s = rng.choice(["bat", "inv"])
+            t = now + rng.choice([Q, (until - now) // 2 // Q * Q])
+            events.append(dict(GOOD_BAT if s == "bat" else GOOD_INV, now=t, ts=t))
+        if r > 0.8 and until - now > Q:
+            events.append({"k": "sp", "succ": False, "fail": True, "now": until - Q})
+        now = until + rng.choice([0, 0, Q, SEC])
+    events.append({"k": "sp", "succ": True, "fail": False, "now": now})
+    events.append({"k": "sp", "succ": False, "fail": True, "now": now + Q})
+    events.append(dict(GOOD_BAT, now=now + 2 * Q, ts=now + 2 * Q))
+    t = now + Q + min(MIN_BLOCK, max_blk)
+    events.append(dict(GOOD_INV, now=t, ts=t))
+    return {"mode": "sync", "maxAge": max_age, "maxBlk": max_blk, "ts0": -100 * SEC, "t0": 0, "events": events}
+
+
+def gen_long_failures_actor(rng: Any) -> dict:
+    """The same history for the running actor (real `select`, timers, channels on the virtual clock): fresh healthy
+    battery and inverter data every 2 s, 50-60 failed commands, each 1/2 s or 1 s after the previous block expired."""
+    max_age = 5 * SEC
+    max_blk = rng.choice([1 * SEC, 4 * SEC])
+    t = 2 * SEC + 3 * Q
+    sp_times = []
+    for k in range(rng.randint(50, 60)):
+        sp_times.append(t)
+        t += min((2 ** k) * MIN_BLOCK, max_blk) + 4 * Q * rng.choice([1, 1, 2])
+    end = t + 2 * SEC
+    actions: list[dict] = [{"t": x, "ev": {"k": "sp", "succ": False, "fail": True}} for x in sp_times]
+    for tt in range(0, end, 2 * SEC):
+        actions.append({"t": tt + Q, "ev": dict(GOOD_BAT, delay=0)})
+        actions.append({"t": tt + 2 * Q, "ev": dict(GOOD_INV, delay=0)})
+    actions.sort(key=lambda a: a["t"])
+    actions.append({"t": end // (4 * Q) * (4 * Q) + 2 * max_age + 12 * Q, "ev": None})
+    return {"mode": "actor", "maxAge": max_age, "maxBlk": max_blk, "ts0": -100 * SEC, "t0": 0, "actions": actions}
+
+
+def actor_backoff_oracle(case: dict, notes: list[list]) -> list[tuple[str, Any, str | None]]:
+    """Back-off clause on an actor run, from the notifications (with their virtual times) and the scripted commands:
+    a failed command for a battery that is reported usable and whose previous block (if any) has elapsed must not leave
+    it reported WORKING; the period doubles up to the maximum and starts over after a success or a recovery.
+    Instants at which the status also passes through NOT_WORKING are not judged."""
+    viol: list[tuple[str, Any, str | None]] = []
+    status, streak, j = NW, None, 0
+    for act in case["actions"]:
+        t, ev = act["t"], act.get("ev")
+        while j < len(notes) and notes[j][0] < t:
+            if status == NW and notes[j][1] != NW:
+                streak = None
+            status = notes[j][1]
+            j += 1
+        before = status
+        at = []
+        while j < len(notes) and notes[j][0] == t:
+            if status == NW and notes[j][1] != NW:
+                streak = None
+            status = notes[j][1]
+            at.append(status)
+            j += 1
+        if ev is None or ev["k"] != "sp":
+            continue
+        if ev["succ"]:
+            streak = None
+        elif ev["fail"] and before != NW and NW not in at:
+            if streak is None or t >= streak[1]:
+                kk = 0 if streak is None else streak[0] + 1
+                streak = (kk, t + min((2 ** kk) * MIN_BLOCK, case["maxBlk"]))
+                if status == WK:
+                    viol.append(("backoff: a failed command left the battery reported WORKING",
+                                 {"t": t, "streak": list(streak), "failure": kk + 1}, None))
+    return viol
 
 
 def actor_msg_on_tick(case: dict) -> bool:
